@@ -124,11 +124,13 @@ pub fn exec(case: &Value) -> Value {
     }
 }
 
-const NAMES: [&str; 9] = ["a", "ab", "b", "a b", "{a", "a}}b", "", "x.y", "\u{e9}"];
-const TEXTS: [&str; 20] = ["X", "", "{{b}}", "{{a}}", "Y{{ab}}Z", "}}", "{{", "a.*b", "(?i)C:\\\\Win", "{", "}", "{{a}}{{b}}", "\u{e9}", "/home/\u{65e5}",
+const NAMES: [&str; 12] = ["a", "ab", "b", "a b", "{a", "a}}b", "", "x.y", "\u{e9}", "a}", "set}", "b}}}"];
+const TEXTS: [&str; 23] = ["X", "", "{{b}}", "{{a}}", "Y{{ab}}Z", "}}", "{{", "a.*b", "(?i)C:\\\\Win", "{", "}", "{{a}}{{b}}", "\u{e9}", "/home/\u{65e5}",
     // verbatim means verbatim: line ends, blanks and tabs at either end of a template's text are part of it
-    "X\n", "\n", " X ", "X\r\n", "\tX\t", "X\n\n"];
-const PIECES: [&str; 19] = ["{{a}}", "{{ab}}", "{{b}}", "{{a b}}", "{{zz}}", "{{{a}}}", "{{", "}}", "{", "}", "x", " ", "{{a}}b}}", "{{}}", "{{x.y}}", "{{{{a}}}}", "\u{e9}", "\u{65e5}\u{672c}", "{{\u{e9}}}"];
+    "X\n", "\n", " X ", "X\r\n", "\tX\t", "X\n\n",
+    // a text that is another template's name: a placeholder nested in another pair of braces must not be completed by it
+    "a", "b", "ab"];
+const PIECES: [&str; 23] = ["{{a}}", "{{ab}}", "{{b}}", "{{a b}}", "{{zz}}", "{{{a}}}", "{{", "}}", "{", "}", "x", " ", "{{a}}b}}", "{{}}", "{{x.y}}", "{{{{a}}}}", "\u{e9}", "\u{65e5}\u{672c}", "{{\u{e9}}}", "{{a}}}", "{{set}}}", "{{b}}}}}", "{{{{b}}}}"];
 
 pub fn gen(tier: &str, seed: u64, out: &mut dyn FnMut(Value)) {
     let mut rng = Rng::new(seed);
